@@ -126,6 +126,8 @@ def pat_alts(pat):
         for c in pat["c"]:
             out.extend(pat_alts(c))
         return out
+    if pat.get("k") == "p_ident" and pat.get("sub") is not None and pat["sub"].get("k") == "p_or":
+        return pat_alts(pat["sub"])
     return [pat]
 
 
@@ -278,7 +280,7 @@ def show(n, depth=0, maxdepth=6):
     if k == "closure":
         return "|" + ", ".join(s(p) for p in n["params"]) + "| " + s(n["body"])
     if k == "p_ident":
-        return n["n"]
+        return n["n"] + (" @ (" + s(n["sub"]) + ")" if n.get("sub") is not None else "")
     if k == "p_ts":
         return f"{n['p']}({', '.join(s(e) for e in n['e'])})"
     if k == "p_tuple":
